@@ -19,6 +19,10 @@ use reactive_mutiny::ogre_std::ogre_queues::{
     meta_subscriber::{MoveSubscriber, MetaSubscriber},
 };
 use reactive_mutiny::ogre_std::ogre_alloc::{ogre_array_pool_allocator::OgreArrayPoolAllocator, BoundedOgreAllocator, ogre_arc::OgreArc};
+unsafe impl<const N: usize> Send for ArcA<N> {}
+unsafe impl<const N: usize> Sync for ArcA<N> {}
+unsafe impl<const N: usize> Send for ArcF<N> {}
+unsafe impl<const N: usize> Sync for ArcF<N> {}
 use reactive_mutiny::ogre_std::ogre_stacks::{OgreStack, non_blocking_atomic_stack::Stack};
 use reactive_mutiny::verif;
 use std::cell::Cell;
@@ -145,6 +149,37 @@ impl<const N: usize> Obj for StackObj<N> {
     }
 }
 
+/// one pooled value with one OgreArc handle per thread (`arg` of every op = the calling thread's index, filled in by the driver)
+macro_rules! arc_obj {
+    ($name:ident, $alloc:ident) => {
+        struct $name<const N: usize> { alloc: &'static $alloc<N>, handles: Mutex<Vec<Option<OgreArc<u32, $alloc<N>>>>> }
+        impl<const N: usize> $name<N> {
+            fn new() -> Self { Self { alloc: Box::leak(Box::new(BoundedOgreAllocator::new())), handles: Mutex::new(vec![]) } }
+            fn h(&self, t: usize) -> OgreArc<u32, $alloc<N>> { unsafe { self.handles.lock().unwrap()[t].as_ref().unwrap().raw_copy() } }
+        }
+        impl<const N: usize> Obj for $name<N> {
+            fn op(&self, name: &str, arg: u64, _prev: &[u64]) -> (u64, String) {
+                let t = arg as usize;
+                match name {
+                    "create" => {   // arg = value; creates the value with ONE handle; "handle" adds one more (clone) per thread
+                        let a = OgreArc::new_with(|s| *s = arg as u32, self.alloc).unwrap(); self.handles.lock().unwrap().push(Some(a)); (0, "done".into())
+                    }
+                    "handle" => { let c = self.handles.lock().unwrap()[0].as_ref().unwrap().clone(); self.handles.lock().unwrap().push(Some(c)); (0, "done".into()) }
+                    "drop" => { let h = self.handles.lock().unwrap()[t].take().unwrap(); drop(h); (0, "done".into()) }
+                    "clone_drop" => { let h = std::mem::ManuallyDrop::new(self.h(t)); let c = (*h).clone(); drop(c); (0, "done".into()) }
+                    "inc_rawcopy_drop" => { let h = std::mem::ManuallyDrop::new(self.h(t)); let c = unsafe { h.increment_references(1).raw_copy() }; drop(c); (0, "done".into()) }
+                    "read" => { let h = std::mem::ManuallyDrop::new(self.h(t)); let v = **h; (v as u64, format!("val {}", v)) }
+                    "count" => { let h = std::mem::ManuallyDrop::new(self.h(t)); let v = h.references_count(); (v as u64, format!("val {}", v)) }
+                    "alloc" => match self.alloc.alloc_ref() { Some((_r, id)) => (id as u64, format!("some {}", id)), None => (NONE, "none".into()) },
+                    _ => panic!("unknown op {}", name),
+                }
+            }
+        }
+    };
+}
+arc_obj!(ArcA, AllocA);
+arc_obj!(ArcF, AllocF);
+
 fn make(kind: &str, n: usize) -> Arc<dyn Obj> {
     macro_rules! pick { ($t:ident, $e:expr) => { match n { 2 => Arc::new($t::<2>($e)) as Arc<dyn Obj>, 4 => Arc::new($t::<4>($e)), 8 => Arc::new($t::<8>($e)), _ => panic!("N") } } }
     match kind {
@@ -155,6 +190,8 @@ fn make(kind: &str, n: usize) -> Arc<dyn Obj> {
         "PoolAtomic" => pick!(PoolA, BoundedOgreAllocator::new()),
         "PoolFullSync" => pick!(PoolF, BoundedOgreAllocator::new()),
         "Stack" => pick!(StackObj, OgreStack::new("s".to_string())),
+        "OgreArcAtomic" => match n { 2 => Arc::new(ArcA::<2>::new()) as Arc<dyn Obj>, 4 => Arc::new(ArcA::<4>::new()), _ => panic!("N") },
+        "OgreArcFullSync" => match n { 2 => Arc::new(ArcF::<2>::new()) as Arc<dyn Obj>, 4 => Arc::new(ArcF::<4>::new()), _ => panic!("N") },
         _ => panic!("unknown object kind {}", kind),
     }
 }
@@ -185,7 +222,12 @@ fn main() {
     verif::set_sequence_origins(origins);
     let obj = make(&kind, n);
     let pre_op = if kind == "Stack" { "push" } else if kind.starts_with("Pool") { "alloc" } else { "send" };
-    for v in &prefill { obj.op(pre_op, *v, &[]); }
+    if kind.starts_with("OgreArc") {
+        obj.op("create", prefill[0], &[]);
+        for _ in 1..threads.len() { obj.op("handle", 0, &[]); }
+    } else {
+        for v in &prefill { obj.op(pre_op, *v, &[]); }
+    }
     if !after.is_empty() { threads.push(after.clone()); }
     let nt = threads.len();
     let after_idx = if after.is_empty() { usize::MAX } else { nt - 1 };
@@ -195,12 +237,12 @@ fn main() {
     let out = Arc::new(Mutex::new(Vec::<String>::new()));
     let mut handles = vec![];
     for (t, prog) in threads.iter().cloned().enumerate() {
-        let obj = obj.clone(); let out = out.clone();
+        let obj = obj.clone(); let out = out.clone(); let is_arc = kind.starts_with("OgreArc");
         handles.push(std::thread::spawn(move || {
             ME.with(|m| m.set(t));
             let mut prev: Vec<u64> = vec![];
             for (j, (name, argtxt)) in prog.iter().enumerate() {
-                let arg: u64 = if let Some(k) = argtxt.strip_prefix('r') { prev[k.parse::<usize>().unwrap()] } else { argtxt.parse().unwrap() };
+                let arg: u64 = if let Some(k) = argtxt.strip_prefix('r') { prev[k.parse::<usize>().unwrap()] } else if is_arc && name != "alloc" { t as u64 } else { argtxt.parse().unwrap() };
                 FIRST.with(|f| f.set(u64::MAX));
                 let r = std::panic::catch_unwind(std::panic::AssertUnwindSafe(|| obj.op(name, arg, &prev)));
                 let last = CLOCK.load(SeqCst);
